@@ -849,6 +849,39 @@ namespace bloch::compiler {
         // Validate initializer expression first so cast errors surface before type checks.
         initializer->accept(*this);
 
+        // Array literals type-check every element against the documented conversions.
+        if (auto arr = dynamic_cast<ArrayType*>(declaredType)) {
+            auto elem = dynamic_cast<PrimitiveType*>(arr->elementType.get());
+            auto lit = dynamic_cast<ArrayLiteralExpression*>(initializer);
+            if (elem && lit) {
+                ValueType want = typeFromString(elem->name);
+                auto accepts = [](ValueType w, ValueType got) {
+                    if (w == got)
+                        return true;
+                    switch (w) {
+                        case ValueType::Int:
+                            return got == ValueType::Bit || got == ValueType::Float;
+                        case ValueType::Long:
+                            return got == ValueType::Int;
+                        case ValueType::Float:
+                            return got == ValueType::Int || got == ValueType::Bit;
+                        default:
+                            return false;
+                    }
+                };
+                for (auto& el : lit->elements) {
+                    TypeInfo got = inferTypeInfo(el.get());
+                    bool known = got.value != ValueType::Unknown || !got.className.empty();
+                    if (known && (!got.className.empty() || !accepts(want, got.value))) {
+                        throw BlochError(ErrorCategory::Semantic, el->line > 0 ? el->line : line,
+                                         el->line > 0 ? el->column : column,
+                                         "element of '" + name + "' expected '" + elem->name +
+                                             "' but got '" + typeLabel(got) + "'");
+                    }
+                }
+            }
+        }
+
         if (auto primType = targetInfo.value; primType != ValueType::Unknown) {
             ValueType initT = initInfo.value;
             if (nonPrimitiveIntoPrimitive(targetInfo, initInfo)) {
